@@ -119,12 +119,22 @@ func (r *Run) yield(why string) {
 	// order: current thread first so that alternative 0 = no switch
 	idx := 0
 	if len(cands) > 1 {
+		curRunnable := false
 		for i, t := range cands {
 			if t == r.cur {
 				cands[0], cands[i] = cands[i], cands[0]
+				curRunnable = true
 			}
 		}
-		idx = r.chooseSched(len(cands))
+		// context bound: a switch away from a thread that could continue is a preemption
+		if bound, ok := r.E.Cfg.Params["preemptions"]; ok && curRunnable && r.preempts >= int(bound) {
+			idx = 0
+		} else {
+			idx = r.chooseSched(len(cands))
+			if curRunnable && idx != 0 {
+				r.preempts++
+			}
+		}
 	}
 	r.switchTo(cands[idx])
 }
